@@ -38,7 +38,7 @@ class C08(Engine):
     prop = "C08"
     name = "cli-sim+wellformedness-monitor"
     level = "exploration"
-    expected_kinds = {"emit_perm", "format_json", "prefix_chr", "tok_edit", "non_ascii", "multi_file", "synthetic_lists"}
+    expected_kinds = {"emit_perm", "format_json", "prefix_chr", "prefix_line", "line_tail_lost", "tok_edit", "non_ascii", "multi_file", "synthetic_lists"}
     rule_text = ("Single- and multi-file runs of the real main() over damaged and undamaged workload files in both formats; each human "
                  "run is paired with its `-f json` twin (W3) and re-run with K explicit permutations of Errors._inner (W4); W1/W2 are "
                  "evaluated on every printed report. Synthetic diagnostic lists (positions from a 4x4 grid, 1-3 highlights, catalogue "
@@ -51,7 +51,7 @@ class C08(Engine):
 
     def setup(self):
         q = self.tier == "quick"
-        self.pools = Pools(self.seed, n_gen=10 if q else 100, n_viol=30 if q else 300, n_cut=0, corpus_limit=30 if q else None, tag="c08")
+        self.pools = Pools(self.seed, n_gen=40 if q else 200, n_viol=30 if q else 300, n_cut=0, corpus_limit=None, tag="c08")
         self.pools.register()
 
     def prepare(self):
@@ -71,10 +71,15 @@ class C08(Engine):
         f = P.files[b]
         content = f["content"]
         L = len(content)
-        kind = rng.choice(["none", "prefix_chr", "prefix_chr", "tok_edit", "tok_edit", "non_ascii", "lexical"])
+        kind = rng.choice(["none", "prefix_chr", "prefix_line", "prefix_line", "tok_edit", "tok_edit", "non_ascii", "lexical"])
         sp = []
         if kind == "prefix_chr":
             sp = [[rng.randrange(L + 1), L, ""]]
+        elif kind == "prefix_line":
+            # a short read that ends on a line boundary (the delivered content still ends with a newline)
+            nls = [i for i, ch in enumerate(content) if ch == "\n"]
+            cut = nls[rng.randrange(len(nls))] + 1 if nls else L
+            sp = [[cut, L, ""]]
         elif kind == "tok_edit":
             from .c05 import LEXEMES
             for _ in range(rng.randrange(1, 3)):
@@ -163,6 +168,41 @@ class C08(Engine):
             yield idx, {"kind": "synthetic", "fault": "synthetic_lists", "nlines": 4,
                         "ops": [{"op": "fmt", "files": [{"name": "s.c", "errors": errs}], "perms": perms}]}
             idx += 1
+
+    def api_scenarios(self):
+        """W1/W2 on the diagnostics of many damaged files at API level (cheap): every line-boundary short read of every
+        pool program under both file types, and token-boundary short reads of a seeded subset."""
+        P = self.pools
+        q = self.tier == "quick"
+        idx = 3_000_000
+        ids = [f for f in sorted(P.files) if len(P.files[f]["content"]) < (6000 if q else 30000)]
+        rng = core.derive_rng("c08.api", self.seed, 0)
+        # token-boundary cuts (with and without a final newline): the repository's own samples, all of them - the positions
+        # rules compute "one past the end" only show at particular cuts (measured: ~1e-4 of all token-boundary cuts)
+        tokb = set(f for f in ids if P.meta[f]["group"] == "corpus") | set(rng.sample(ids, min(len(ids), 10 if q else 200)))
+        for b in ids:
+            f = P.files[b]
+            content = f["content"]
+            L = len(content)
+            stem, ext = f["name"].rsplit(".", 1)
+            names = [f["name"], f"{stem}.{'h' if ext == 'c' else 'c'}"]
+            cuts = [i + 1 for i, ch in enumerate(content) if ch == "\n"]
+            if b in tokb:
+                cuts = sorted(set(cuts) | set(a for a, e, t in faults.token_offsets(core.N, f["name"], content)))
+            nlset = set(i + 1 for i, ch in enumerate(content) if ch == "\n")
+            for k, cut in enumerate(cuts):
+                nm = names[k % 2] if b not in tokb else names[0]
+                if cut in nlset:
+                    yield idx, {"kind": "api", "fault": "prefix_line", "files": {"x": {"name": nm, "base": b, "splices": [[cut, L, ""]],
+                                                                                        "fault_desc": f"prefix({cut})"}},
+                                "ops": [{"op": "api", "file": "x"}]}
+                    idx += 1
+                if b in tokb and cut < L and content[cut - 1:cut] != "\n":
+                    # the tail of a line lost, the file ending right after that (newline-terminated) line
+                    yield idx, {"kind": "api", "fault": "line_tail_lost", "files": {"x": {"name": nm, "base": b, "splices": [[cut, L, "\n"]],
+                                                                                           "fault_desc": f"line_tail_lost({cut})"}},
+                                "ops": [{"op": "api", "file": "x"}]}
+                    idx += 1
 
     # ---- references: the humanized twin of each json run, and the unpermuted run of each emit run --------
     def twin(self, sc):
@@ -263,6 +303,11 @@ class C08(Engine):
                 except Exception as e:  # noqa
                     vs.append(Violation(self.prop, "C08.W3-json-equals-human", f"synthetic list: JSON output not parseable ({type(e).__name__})", {}))
             return vs
+        if kind == "api":
+            if o.get("outcome") != "verdict" or o.get("diags") is None:
+                return []
+            rep = {"files": [{"diags": o["diags"], "status": o.get("status"), "nlines": o.get("nlines")}]}
+            return self.w1_w2(rep, "api")
         if o.get("end") in ("invalid-scenario", "hang", "slow", "internal"):
             return []
         key, _ = self.twin(sc)
@@ -327,12 +372,18 @@ class C08(Engine):
             for f in sc["ops"][0]["files"]:
                 self.distinct.add(("syn", tuple(sorted((e["highlights"][0][0], e["highlights"][0][1], len(e["highlights"])) for e in f["errors"]))))
             return
+        if kind == "api":
+            self.fire(sc.get("fault"))
+            d = o.get("diags") or []
+            if len(d) >= 2:
+                self.distinct.add(("api", tuple(sorted((x[3][0][0], x[3][0][1], len(x[3])) for x in d if x[3]))))
+            return
         if kind == "emit":
             self.fire("emit_perm")
         else:
             self.fire("format_json")
         fk = sc.get("fault")
-        if fk in ("prefix_chr", "non_ascii", "multi_file"):
+        if fk in ("prefix_chr", "non_ascii", "multi_file", "prefix_line"):
             self.fire(fk)
         if fk in ("tok_edit", "lexical"):
             self.fire("tok_edit")
@@ -358,6 +409,7 @@ class C08(Engine):
     def run(self):
         self.prepare()
         self.run_bulk(self.scenarios(), chunk=8)
+        self.run_bulk(self.api_scenarios(), chunk=24)
         self.recheck_killed()
 
 
